@@ -38,6 +38,10 @@ pub struct Compiler {
     /// Used to determine if we should emit DeclareVarHoisted or SetVar
     hoisted_vars: FxHashSet<JsString>,
 
+    /// Function declarations already created at the start of their block (by source
+    /// offset): the statement itself has nothing left to do
+    hoisted_functions: FxHashSet<usize>,
+
     /// Loop variable redirects: when compiling for-loop updates, assignments to
     /// these variables should write to the register instead of the environment.
     /// This ensures closures capture pre-update values.
@@ -108,6 +112,20 @@ struct PrivateMemberInfo {
     is_static: bool,
 }
 
+/// The `length` of a function: the parameters before the first one with a default
+/// value or the rest parameter
+pub(crate) fn expected_argument_count(params: &[crate::ast::FunctionParam]) -> usize {
+    params
+        .iter()
+        .take_while(|p| {
+            !matches!(
+                p.pattern,
+                crate::ast::Pattern::Assignment(_) | crate::ast::Pattern::Rest(_)
+            )
+        })
+        .count()
+}
+
 /// Context for a loop (for break/continue handling)
 struct LoopContext {
     /// Label for this loop (if any)
@@ -147,6 +165,7 @@ impl Compiler {
             labels: FxHashMap::default(),
             try_depth: 0,
             hoisted_vars: FxHashSet::default(),
+            hoisted_functions: FxHashSet::default(),
             loop_var_redirects: FxHashMap::default(),
             class_context_stack: Vec::new(),
             next_class_brand: 0,
@@ -228,6 +247,7 @@ impl Compiler {
 
         // First, hoist all var declarations and function declarations to the top
         compiler.emit_hoisted_declarations(&program.body)?;
+        compiler.emit_function_prelude(&program.body)?;
 
         // Then compile the statements
         compiler.compile_statements(&program.body)?;
@@ -244,6 +264,7 @@ impl Compiler {
 
         // First, hoist all var declarations and function declarations to the top
         compiler.emit_hoisted_declarations(&program.body)?;
+        compiler.emit_function_prelude(&program.body)?;
 
         // Then compile the statements
         compiler.compile_statements(&program.body)?;
@@ -258,6 +279,7 @@ impl Compiler {
 
         // First, hoist all var declarations and function declarations to the top
         compiler.emit_hoisted_declarations(&program.body)?;
+        compiler.emit_function_prelude(&program.body)?;
 
         // Then compile the statements
         compiler.compile_statements(&program.body)?;
